@@ -118,16 +118,52 @@ def validate(desc, tree, check_capacity=True):
             c = sum(1 for x in shared if x["rv"] == rv)
             if c > per:
                 problems.append(("too_many_fused_loops_for_rank_variable", {"einsum": e, "rank_variable": rv, "count": c, "limit": per}))
-        # ---- spatial fanout
+        # ---- spatial fanout and loop-bound constraints
+        iters = {}          # (component, dim) -> [(rank variable, iterations)]
+        cur_size = dict(w["ranks"])
         for n in path:
-            if n["t"] == "P":
-                comp = mem_by.get(n["comp"]) or (a["mac"] if a["mac"]["name"] == n["comp"] else None)
-                fan = None
-                for sp in (comp or {}).get("spatial") or []:
-                    if sp["name"] == n["name"]:
-                        fan = sp["fanout"]
-                if fan is None:
-                    problems.append(("spatial_loop_without_fanout", {"einsum": e, "component": n["comp"], "dim": n["name"]}))
+            if n["t"] in ("T", "P"):
+                it = cur_size[n["rv"]] // n["tile"] if isinstance(n["tile"], int) and n["tile"] else None
+                if n["t"] == "P":
+                    iters.setdefault((n["comp"], n["name"]), []).append((n["rv"], it))
+                if isinstance(n["tile"], int):
+                    cur_size[n["rv"]] = n["tile"]
+        for (cname, dim), lst in iters.items():
+            comp = mem_by.get(cname) or (a["mac"] if a["mac"]["name"] == cname else None)
+            spd = None
+            for sp in (comp or {}).get("spatial") or []:
+                if sp["name"] == dim:
+                    spd = sp
+            if spd is None:
+                problems.append(("spatial_loop_without_fanout", {"einsum": e, "component": cname, "dim": dim}))
+                continue
+            used = 1
+            for _, it in lst:
+                used *= it or 1
+            if used > spd["fanout"]:
+                problems.append(("fanout_exceeded", {"einsum": e, "component": cname, "dim": dim, "used": used, "fanout": spd["fanout"]}))
+            for lb in spd.get("loop_bounds") or []:
+                env_rv = {rv: frozenset([rv]) for rv in rvs}
+                env_rv["All"] = frozenset(rvs)
+                try:
+                    target = _eval_expr(lb["expression"], env_rv, frozenset(rvs))
+                except Exception:
+                    continue
+                bounds = [it for rv, it in lst if rv in target]
+                op, val = lb["operator"], lb["value"]
+                if op.startswith("product"):
+                    pr = 1
+                    for b in bounds:
+                        pr *= b
+                    vals, op2 = [pr], op[len("product"):]
+                else:
+                    vals, op2 = bounds, op
+                import operator as _o
+                fn = {"==": _o.eq, "<=": _o.le, ">=": _o.ge, "<": _o.lt, ">": _o.gt}[op2]
+                bad = [v for v in vals if not fn(v, val)]
+                if bad:
+                    problems.append(("loop_bound_constraint_violated", {"einsum": e, "component": cname, "dim": dim,
+                                                                       "constraint": lb, "spatial_loop_bounds": lst}))
     # ---- capacity: only the order-independent lower bracket decides (see C06)
     if check_capacity and not problems:
         from .occupancy import Occupancy
